@@ -13,7 +13,7 @@ RULE = ("call sequences over the configuration alphabet on fresh RF24 objects: a
         "each sequence ends with a with-block re-entry coherence probe. A case is non-trivial "
         "when at least one register write or exception was observed; distinct = distinct "
         "(chip variant, SPI flavour, call sequence with arguments, polling mode).")
-RULE += (" Later rounds added: print_details()/print_pipes() as pure readers and argument types outside the documented forms.")
+RULE += (" Later rounds added: print_details()/print_pipes() as pure readers and argument types outside the documented forms, histories around pipe 0 (exhaustive over a small alphabet + templates), every call made while the carrier-wave test is on.")
 REQUIRED = {"snapshot_compare": 5000, "getter_compare": 5000, "coherence_probe": 500,
             "sanitizer_scan": 5000, "exception_compare": 200}
 ASSUMPTIONS = ["admitted alternatives: pa_level invalid -> ValueError or 0dBm+LNA; crc<0 -> "
@@ -161,6 +161,17 @@ def gen_cases(ctx):
                     yield {"kind": "pipe0", "variant": ["plus", "nonplus"][i % 2], "flavour": "pin",
                            "poll": bool(i & 2), "ops": [o for o in ops if o is not None]}
                     i += 1
+    # 1c. every call of the alphabet made WHILE the carrier-wave test is on, then the test is
+    # stopped (and, every other time, started and stopped once more): what was set in between stays
+    for k, op in enumerate(FULL):
+        if op[0] in ("start_carrier_wave", "stop_carrier_wave", "enter", "exit", "exit_exc", "reenter"):
+            continue
+        for var in ([("plus", "pin"), ("nonplus", "pin")] if ctx.tier == "thorough" or k % 2 else [("plus", "pin")]):
+            tail = [["stop_carrier_wave"]] + ([["start_carrier_wave"], ["stop_carrier_wave"]] if k % 2 else [])
+            yield {"kind": "carrier", "variant": var[0], "flavour": var[1], "poll": bool(k & 2),
+                   "ops": [["start_carrier_wave"], op] + tail}
+            yield {"kind": "carrier", "variant": var[0], "flavour": var[1], "poll": bool(k & 2),
+                   "ops": [["start_carrier_wave"], FULL[(k * 7) % len(FULL)], op] + tail + [["reenter"]]}
     # 2. random walks
     nwalk = 300 if ctx.tier == "quick" else 20000
     rng = ctx.sub_rng("walks")
